@@ -133,18 +133,29 @@ def h_add_multiple(ctx, first=3, second=3):
     b1 = batch(0, first, 10.0)
     store.candles.add_multiple_1m_candles(b1.astype(float), api.exchange_name, S.SYMBOL)
     m = ctx.int('m', 0, first + 2)
-    ctx.constrain(Or(m >= first, m == first - second) if first >= second else m >= first)
+    # the second batch starts after the stored series (gap allowed), repeats its tail, or overlaps the tail and extends past it; a batch
+    # lying in the middle of the stored series is rejected by the store (IndexError) and is outside this harness
+    ctx.constrain(m >= max(first - second, 0))
     b2 = batch(m, second, 20.0)
-    store.candles.add_multiple_1m_candles(b2, api.exchange_name, S.SYMBOL)
+    try:
+        store.candles.add_multiple_1m_candles(b2, api.exchange_name, S.SYMBOL)
+    except ValueError as e:
+        ctx.prove(False, 'C20:batch-of-new-and-stored-timestamps-does-not-raise', {'first': first, 'second': second, 'error': str(e)[:80]})
+        return
     rows = arr[:]
     ctx.prove(And(*[rows[i][0] < rows[i + 1][0] for i in range(len(rows) - 1)]), 'C20:stored-timestamps-strictly-increasing', {'batch': True})
     if bool(m >= first):
         ctx.event('batch-new')
         ctx.prove(len(rows) == first + second, 'C20:new-appended-stored-replaced-nothing-else', {'batch': 'new'})
-    else:
+    elif bool(m == first - second):
         ctx.event('batch-repeated')
         ctx.prove(len(rows) == first and bool(And(*[rows[first - second + i][2] == 20.0 + i for i in range(second)])),
                   'C20:new-appended-stored-replaced-nothing-else', {'batch': 'repeated'})
+    else:
+        ctx.event('batch-overlapping')  # stored timestamps are replaced, the new ones appended
+        mm = int(m)
+        ok = len(rows) == mm + second and all(bool(rows[i][2] == 10.0 + i) for i in range(mm)) and all(bool(rows[mm + i][2] == 20.0 + i) for i in range(second))
+        ctx.prove(ok, 'C20:new-appended-stored-replaced-nothing-else', {'batch': 'overlapping', 'first': first, 'second': second, 'm': mm})
 
 
 def h_spacing(ctx, n=3):
